@@ -212,6 +212,11 @@ def main():
     r = run_budget(lambda: c._process_response(bytearray(resp), pdu.PDUHeader.unpack(resp), req.Response, (24, 40)))
     show(13, "C16", r[0] == "ok" and Auth.calls == 0, (r[0], "unwrap calls", Auth.calls))
 
+    # D14 C12/C18: unknown floor protocol loses its value on re-encoding
+    d = b"\x02\x00\xff\x00\x01\x00\x00"
+    r = run_budget(lambda: epm.Floor.unpack(d).pack())
+    show(14, "C12", r != ("ok", d), r)
+
 
 if __name__ == "__main__":
     main()
